@@ -101,3 +101,24 @@ def _v23(repo, mod):
 def _v24(repo, mod):
     _fn, brk = _scan(repo)
     return replace_node(mod, brk.test, "not (position > idx)")
+
+
+@variant("C15", "cascade-not-transitive", TF, "C15.cascade", "readers of a removed reader's variable stay")
+def _v40(repo, mod):
+    fn = repo.func(TF, "TestFactory.delete_statement_gracefully")
+    s = find_stmt(fn, lambda s: isinstance(s, ast.Expr) and norm(s) == "dead_vars.add(nbv)")
+    return replace_node(mod, s, "pass")
+
+
+@variant("C15", "cascade-skips-statements-binding-nothing", TF, "C15.cascade", "a bare expression statement reading the deleted variable stays")
+def _v41(repo, mod):
+    fn = repo.func(TF, "TestFactory.delete_statement_gracefully")
+    s = find_stmt(fn, lambda s: isinstance(s, ast.If) and norm(s.test) == "statements[idx].used_variables() & dead_vars")
+    return replace_node(mod, s.test, "statements[idx].bound_variable is not None and statements[idx].used_variables() & dead_vars")
+
+
+@variant("C15", "twin-cascade-single-pass-worklist", TF, None, "intersection written with isdisjoint")
+def _v42(repo, mod):
+    fn = repo.func(TF, "TestFactory.delete_statement_gracefully")
+    s = find_stmt(fn, lambda s: isinstance(s, ast.If) and norm(s.test) == "statements[idx].used_variables() & dead_vars")
+    return replace_node(mod, s.test, "not statements[idx].used_variables().isdisjoint(dead_vars)")
